@@ -85,6 +85,9 @@ func loadProgram(repo string, contractsMode string) (*Program, error) {
 		for _, f := range pick {
 			files = append(files, f)
 			source += f + " "
+			if rel != "." {
+				keyPrefix[f] = p.Name + ":"
+			}
 		}
 	}
 	cs, err := ParseContracts(files)
@@ -152,6 +155,13 @@ func (u *Unit) setupEntry() *Env {
 	u.entry = &Env{vars: map[types.Object]Term{}, heaps: map[string]Term{}, tags: map[string]int{}, alias: map[string]Term{}, held: map[string]string{}, clock: IntLit(1), aliasTy: map[string]types.Type{}}
 	u.curFn = []*FuncInfo{fi}
 	u.loops, u.lits = numberLoops(fi.Decl)
+	if u.Block != nil && (u.Block.Opts["effects"] == "trace" || u.Block.Opts["callbacks"] == "effectful") {
+		// the ghost trace exists from the start and is shared by the entry snapshot (old(tr_len) etc.)
+		env.tr = u.newTrace("tr0")
+		env.assume(le(IntLit(0), env.tr.n))
+		cp := *env.tr
+		u.entry.tr = &cp
+	}
 	sig := fi.Obj.Type().(*types.Signature)
 	bind := func(obj types.Object) {
 		if obj == nil {
